@@ -323,7 +323,7 @@ package types
 //@   trusted constructor (sorts, drops zero coins, panics on duplicates/invalid): for ONE coin the set's amount and denomination are the coin's
 //@   pure_fn
 //@   ensures len(coins) == 1 ==> singleAmt(result) == bigv[coins[0].Amount.i] && singleDenom(result) == coins[0].Denom && cv(result) == cvOne(coins[0].Denom, bigv[coins[0].Amount.i])
-//@   ensures len(coins) == 0 ==> cv(result) == cvZero()
+//@   ensures len(coins) == 0 ==> cv(result) == cvZero() && validCoins(result)
 
 // ---- C42: transaction indexer ------------------------------------------------------------
 //@ func endKey
@@ -413,6 +413,7 @@ package types
 //@   trusted coin-set arithmetic (sorted merge in safeAdd): the abstract sum
 //@   pure_fn
 //@   ensures cv(result) == cvAdd(cv(coins), cv(coinsB))
+//@   ensures validCoins(coins) && validCoins(coinsB) ==> validCoins(result) && !cvNeg(cv(result))
 //@ func (Coins).Sub
 //@   trusted coin-set arithmetic: the abstract difference; panics when a component would be negative
 //@   pure_fn
@@ -426,10 +427,13 @@ package types
 //@   trusted coin-set predicate
 //@   pure_fn
 //@   ensures result == cvNeg(cv(coins))
-//@ pure coinsValid(c CV) bool
+// validCoins: the Go coin set is well formed (sorted, positive amounts, valid denominations);
+// a function of the (immutable) coin set, closed under Add
+//@ pure validCoins(c Coins) bool
 //@ func (Coins).IsValid
 //@   trusted coin-set predicate (sorted, positive amounts, valid denominations)
 //@   pure_fn
+//@   ensures result == validCoins(coins)
 //@   ensures result ==> !cvNeg(cv(coins))
 //@ func (Coins).IsAllGTE
 //@   trusted coin-set comparison
